@@ -636,6 +636,13 @@ func c29Propagate(c *an.Check, fn *ssa.Function, k *ssa.Call, seen map[*ssa.Func
 	}
 	switch verdict {
 	case "bad":
+		if depth > 0 {
+			// The start-up routine itself failed and returned the error (checked at
+			// depth 0), so nothing after the refused upgrade ran. Whether an outer
+			// caller then ends the process or idles is more than the property states.
+			c.Note(rule, cons, pos, "the start-up routine returned the SafeUpgrade error, but this caller does not end the process ("+detail+"): the daemon idles without peerswap having started")
+			return
+		}
 		c.Bad(rule, cons, pos, "the error of SafeUpgrade (active swaps with a database of another version) is swallowed here: "+detail+"; the process keeps running instead of failing start-up", path...)
 		return
 	case "unknown":
